@@ -83,7 +83,7 @@ fn explore_rel(t: Tier, shard: usize, f: &mut dyn FnMut(&RelCase) -> Verdict) {
             kdev_shard(&m, k_for(t, sk), first, &mut |v| {
                 if render(sk, v, subst).is_some() {
                     // fields without a substvar slot chosen are explored once (subst = false) except the baseline
-                    let has_sv = (0..sk.entries).any(|e| v[3 + e * (3 + sk.alts * (2 + REL_SLOTS))] == 2);
+                    let has_sv = (0..sk.entries).any(|e| v[3 + e * (3 + sk.alts * (2 + REL_SLOTS))] >= 2);
                     if subst && !has_sv && first.is_some() {
                         return;
                     }
@@ -105,7 +105,7 @@ fn explore_rel(t: Tier, shard: usize, f: &mut dyn FnMut(&RelCase) -> Verdict) {
             let sk = RSkel { entries: 1, alts: 1 };
             let m = menus(sk);
             let base = 3 + 3 + 2; // index of the relation slots
-            product(&[3, 6, 3, 5, 8], &mut |pv| {
+            product(&[3, 6, 3, 6, 8], &mut |pv| {
                 let mut v = vec![0usize; m.len()];
                 v[base] = name;
                 for (i, x) in pv.iter().enumerate() {
@@ -326,7 +326,7 @@ impl Prop for RelProp {
     }
     fn bounds(&self, t: Tier) -> Value {
         let per: Vec<Value> = skeletons().iter().map(|sk| json!({"skeleton": sk, "slots": menus(*sk).len(), "k": k_for(t, *sk), "vectors_upper_bound": kdev_count(&menus(*sk), k_for(t, *sk))})).collect();
-        json!({"skeletons": per, "single_relation_parts_product": 2 * 3 * 6 * 3 * 5 * 8, "menus": {"names": NAMES, "archquals": ARCHQUALS, "ops": OPS, "versions": VERS, "archs": ARCHS, "profiles": PROFILES, "separator_ws": SEP_WS, "part_ws": PART_WS, "item_ws": ITEM_WS}})
+        json!({"skeletons": per, "single_relation_parts_product": 3 * 3 * 6 * 3 * 6 * 8, "menus": {"names": NAMES, "archquals": ARCHQUALS, "ops": OPS, "versions": VERS, "archs": ARCHS, "profiles": PROFILES, "separator_ws": SEP_WS, "part_ws": PART_WS, "item_ws": ITEM_WS}})
     }
     fn assumptions(&self) -> Vec<String> {
         vec![
